@@ -75,6 +75,22 @@ func scnCases(tier string, seed int64, forC09 bool) []runner.Case {
 			}
 		}
 	}
+	// the commit lands inside the start-up of a first run: around the start-up capture and the initial snapshot
+	for _, native := range []bool{true, false} {
+		for _, p := range []string{"startup.listed", "startup.before_first_send", "send.before_txn", "send.after_txn", "send.before_store", "send.after_store", "loop.top", "loop.before_info"} {
+			for _, k := range []string{"insert", "overwrite", "delete", "newdbi"} {
+				add("atstartup", Scn{Native: native, Point: p, Nth: 1, Kind: k, Remote: "none", AtStartup: true})
+			}
+		}
+	}
+	// deletion markers older than the retention arrive for keys the application has just written (sweeper cutoff on)
+	for _, native := range []bool{true, false} {
+		for _, p := range []string{"loop.top", "loop.after_info", "load.before_txn", "send.after_txn", "loop.end"} {
+			for _, k := range []string{"insert", "overwrite", "newdbi"} {
+				add("stalemarker-vs-local", Scn{Native: native, Point: p, Nth: 1, Kind: k, Remote: "staletomb-local", Sweeper: true, Prewrite: true})
+			}
+		}
+	}
 	// empty-value sub-family (insert/overwrite only)
 	for _, native := range []bool{true, false} {
 		for _, p := range []string{"loop.top", "load.after_txn", "send.after_txn", "loop.end"} {
